@@ -505,6 +505,83 @@ def rule_grad2(repo, tier):
     return res
 
 
+@guarded
+def rule_pure9(repo, tier):
+    from ..effects import rule_pure
+    t = [('pypose.optim.corrector', 'FastTriggs.forward'), ('pypose.optim.corrector', 'Triggs.forward'), ('pypose.optim.corrector', 'Triggs.compute_grads')] + \
+        [(KER, k + '.forward') for k in ('Huber', 'PseudoHuber', 'Cauchy', 'SoftLOne', 'Arctan', 'Tolerant', 'Scale')]
+    return rule_pure(repo, 'C09.PURE', 'kernels and correctors return new tensors: the residual and the Jacobian handed to a corrector are not rescaled in place '
+                     '(the caller corrects the same linearisation with another kernel, or compares Triggs with FastTriggs)', t)
+
+
+@guarded
+def rule_div(repo, tier):
+    """Triggs divides by the squared residual norm x = |R_i|^2.  A residual block that is exactly zero (an already satisfied constraint) is inside the
+    stated range and must coincide with FastTriggs; so every division by x happens on a gather `x[M]` whose mask M excludes x == 0 - selecting
+    afterwards with where() keeps the 0/0 = NaN of the unselected branch in the result's J' rows."""
+    res = RuleResult('C09.DIV', 'Triggs.forward divides by the squared residual norm only through a gather under a mask that excludes x == 0', floor=1)
+    f = repo.func('pypose.optim.corrector', 'Triggs.forward')
+    assigns = {}
+    for n in ast.walk(f.node):
+        if isinstance(n, ast.Assign):
+            for t in n.targets:
+                if isinstance(t, ast.Name):
+                    assigns.setdefault(t.id, []).append(n.value)
+                elif isinstance(t, ast.Tuple) and isinstance(n.value, ast.Call):
+                    for k, x in enumerate(t.elts):
+                        if isinstance(x, ast.Name):
+                            assigns.setdefault(x.id, []).append(('item', k, n.value))
+    # the name bound to the first result of compute_grads (x)
+    xs = [nm for nm, vs in assigns.items() for v in vs if isinstance(v, tuple) and v[1] == 0 and isinstance(v[2].func, ast.Attribute) and v[2].func.attr == 'compute_grads']
+    if len(xs) != 1:
+        raise AnalysisError('C09.DIV: the squared residual norm of Triggs.forward was not identified')
+    x = xs[0]
+
+    def excludes_zero(m, depth=0):
+        if depth > 4:
+            return False
+        if isinstance(m, ast.Name):
+            vs = [v for v in assigns.get(m.id, []) if not isinstance(v, tuple)]
+            return len(vs) == 1 and excludes_zero(vs[0], depth + 1)
+        if isinstance(m, ast.Call) and isinstance(m.func, ast.Attribute) and m.func.attr in ('squeeze', 'unsqueeze', 'view', 'reshape'):
+            return excludes_zero(m.func.value, depth + 1)
+        if isinstance(m, ast.UnaryOp) and isinstance(m.op, ast.Invert):
+            inner = m.operand
+            while isinstance(inner, ast.Call) and isinstance(inner.func, ast.Attribute) and inner.func.attr in ('squeeze', 'unsqueeze', 'view', 'reshape'):
+                inner = inner.func.value            # ~(...).squeeze(-1) parses as ~((...).squeeze(-1))
+            # ~( (x == 0) | ... )
+            parts = []
+            def ors(e):
+                if isinstance(e, ast.BinOp) and isinstance(e.op, ast.BitOr):
+                    ors(e.left); ors(e.right)
+                else:
+                    parts.append(e)
+            ors(inner)
+            return any(isinstance(q, ast.Compare) and len(q.ops) == 1 and isinstance(q.ops[0], (ast.Eq, ast.LtE)) and dotted(q.left) == x and
+                       isinstance(q.comparators[0], ast.Constant) and q.comparators[0].value == 0 for q in parts)
+        if isinstance(m, ast.BinOp) and isinstance(m.op, ast.BitAnd):
+            return excludes_zero(m.left, depth + 1) or excludes_zero(m.right, depth + 1)
+        if isinstance(m, ast.Compare) and len(m.ops) == 1 and dotted(m.left) == x and isinstance(m.comparators[0], ast.Constant) and m.comparators[0].value == 0:
+            return isinstance(m.ops[0], (ast.Gt, ast.NotEq))
+        return False
+    n = 0
+    for d in ast.walk(f.node):
+        if isinstance(d, ast.BinOp) and isinstance(d.op, ast.Div):
+            den = d.right
+            names = {q.id for q in ast.walk(den) if isinstance(q, ast.Name)}
+            if x not in names:
+                continue
+            n += 1
+            ok = isinstance(den, ast.Subscript) and dotted(den.value) == x and excludes_zero(den.slice)
+            res.inst({'function': f.fq, 'division': src(d)[:60], 'denominator gathered under a mask excluding x == 0': ok}, src(d))
+            if not ok:
+                res.add(Finding('C09.DIV', f, '`%s` divides by the squared residual norm `%s` without first gathering it under a mask that excludes zero: a zero '
+                                'residual block gives 0/0 = NaN in its J\' rows, where Triggs must coincide with FastTriggs' % (src(d)[:60], src(den)[:20]), node=d))
+    if n == 0:
+        raise AnalysisError('C09.DIV: no division by the squared residual norm found in Triggs.forward')
+    return res
+
+
 SINGULAR_AT_ZERO = {'sqrt', 'rsqrt', 'log', 'log2', 'log10', 'reciprocal'}
 
 
@@ -622,7 +699,8 @@ def rule_sing(repo, tier):
 
 def _rules_core(repo, tier):
     return [rule_guard(repo, tier), rule_kind(repo, tier)] + rule_masks(repo, 'C09.MP', 'C09.GD', [(KER, 'Huber.forward')], floor=1) + \
-        [rule_unit(repo, tier), rule_sel_axis(repo, tier), rule_contr(repo, tier), rule_sing(repo, tier), rule_grad2(repo, tier)]
+        [rule_unit(repo, tier), rule_sel_axis(repo, tier), rule_contr(repo, tier), rule_sing(repo, tier), rule_grad2(repo, tier), rule_div(repo, tier),
+         rule_pure9(repo, tier)]
 
 
 def rules(repo, tier):
